@@ -9,9 +9,11 @@ tier = "quick"; suffix = ""
 for i, a in enumerate(sys.argv):
     if a == "--tier": tier = sys.argv[i+1]
     if a == "--name": suffix = sys.argv[i+1]
-args = [a for a in args if a not in (tier, suffix) or a.startswith("C")]
+args = [a for a in args if a.startswith("C") and len(a) == 3]
 pid = args[0]; others = [a for a in args[1:] if a.startswith("C")]
 src = "/tmp/seed-%s/seed_out" % pid
+for i, a in enumerate(sys.argv):
+    if a == "--src": src = sys.argv[i+1]
 scratch = "/tmp/sv-%s%s" % (pid, suffix)
 def run(cmd, cwd=None, env=None, timeout=3000):
     p = subprocess.run(cmd, shell=True, cwd=cwd, env=env, text=True, stdout=subprocess.PIPE, stderr=subprocess.STDOUT, timeout=timeout)
